@@ -381,3 +381,21 @@ def d_error_exit_nested():
 
 ALL += [d_error_exit_nested]
 WORDS["d_error_exit_nested"] = [["f"], ["e", "f"], []]
+
+
+def d_multi_target_region():
+    # a multi-target transition from inside one region of a <parallel> into its own and a sibling region: the
+    # domain is the nearest COMPOUND ancestor of source and ALL targets (here <scxml>), whatever the target order;
+    # it conflicts with the sibling region's transition on the same event
+    a0 = State(name="a0", trans=[T("go", ["a"])])
+    a = State(name="a")
+    r1 = State(a0, a, name="r1")
+    src = State(name="src", trans=[T("go", ["a", "b"]), T("og", ["b", "a"]), T("ab", ["a", "b"])])
+    b = State(name="b", trans=[T("back", ["src"])])
+    r2 = State(src, b, name="r2")
+    p = Parallel(r1, r2, name="p", onentry=[[log("p")]], onexit=[[log("xp")]])
+    return Chart(Scxml(p), tags=["multitarget", "parallel"])
+
+
+ALL += [d_multi_target_region]
+WORDS["d_multi_target_region"] = [["go"], ["og"], ["ab"], ["ab", "back", "og"]]
